@@ -189,9 +189,10 @@ func Progs(rc *vk.Rec) {
 		r := rc.RNG(phase, idx)
 		o := opts
 		if idx >= int64(nTotal) {
-			// families whose accepted programs make the code generator emit
-			// undefined C (known findings): run by shard 0 only, in the c01 mode
-			if mode != "c01" || rc.Shard != 0 {
+			// families aimed at the code generator rather than the checker
+			// (accepted programs whose C was once undefined): always run as
+			// C, by shard 0 only, under UBSan (c01) and trace comparison (c04)
+			if mode == "c02" || rc.Shard != 0 {
 				continue
 			}
 			o = wprog.GenOptions{Family: gfams[idx-int64(nTotal)], Variant: 0, MaxScens: 1}
